@@ -50,7 +50,6 @@ template <class Key> static Key make_key(karr const& a) { return make_key_impl<K
 static std::string kstr(karr const& a, int d) { std::string s = "("; for (int i = 0; i < d; ++i) s += (i ? "," : "") + std::to_string(a[i]); return s + ")"; }
 
 static long div_trunc(long c, long bw) { return c / bw; }
-static long div_floor(long c, long bw) { long q = c / bw; if ((c % bw != 0) && ((c < 0) != (bw < 0))) --q; return q; }
 
 // ---- pixel type traits --------------------------------------------------------------------------
 template <class P> struct PT;
@@ -67,14 +66,15 @@ template <class P> struct content {
     image_t img;
     int w, h, ox, oy;
     std::vector<long> vals;   // (y*w+x)*N+c
+    long neg_nonmultiple = 0; // channel values < 0 that are not multiples of the bin width
     typename image_t::view_t view() { return gil::subimage_view(gil::view(img), ox, oy, w, h); }
     long at(int x, int y, int c) const { return vals[((size_t)y * w + x) * N + c]; }
     // cls: 0 = non-negative values only, 1 = negative values present (signed channels)
     // per channel value windows: a narrow window (collisions, several pixels per bin) or the whole range
-    struct windows { long lo[4], hi[4]; };
+    struct windows { long lo[4], hi[4]; int cls; long bw; };
     static windows make_windows(vh::rng& r, int cls, long bw) {
         const long cmin = (long)std::numeric_limits<ch_t>::min(), cmax = (long)std::numeric_limits<ch_t>::max();
-        windows wd;
+        windows wd; wd.cls = cls; wd.bw = bw;
         for (int c = 0; c < 4; ++c) {
             long a = cls ? cmin : 0, b = cmax;
             int mode = r.range(0, 3);
@@ -83,6 +83,7 @@ template <class P> struct content {
                 long span = r.range(0, (int)(3 * bw + 2));
                 long base = mode == 1 ? a : mode == 2 ? b - span : a + (long)r.below((uint64_t)(b - a - span + 1));
                 wd.lo[c] = base; wd.hi[c] = base + span;
+                if (cls && mode == 2) { wd.lo[c] = -span - 1; wd.hi[c] = -1; }   // just below zero (never a positive-only window)
                 if (cls && mode == 3) { wd.lo[c] = -r.range(1, (int)(2 * bw + 1)); wd.hi[c] = r.range(0, (int)(2 * bw)); }   // straddle zero
             }
         }
@@ -96,8 +97,16 @@ template <class P> struct content {
         for (int y = 0; y < h + 2; ++y) for (int x = 0; x < w + 2; ++x) for (int c = 0; c < N; ++c) full(x, y)[c] = (ch_t)r.range((int)cmin, (int)cmax);
         vals.assign((size_t)w * h * N, 0);
         auto v = view();
+        neg_nonmultiple = 0;
+        std::vector<unsigned char> force((size_t)w * h, 0);
+        if (wd.cls) for (auto& f : force) f = r.coin();
         for (int y = 0; y < h; ++y) for (int x = 0; x < w; ++x) for (int c = 0; c < N; ++c) {
             long val = wd.lo[c] + (long)r.below((uint64_t)(wd.hi[c] - wd.lo[c] + 1));
+            // negative class: the first pixel and about half of the others hold, in every channel, a negative value
+            // that is not a multiple of the bin width (truncation toward zero and floor then give different bins)
+            if (wd.cls && ((x == 0 && y == 0) || force[(size_t)y * w + x]))
+                val = -((long)r.range(0, 6) * wd.bw + (wd.bw > 1 ? (long)r.range(1, (int)wd.bw - 1) : 1));
+            if (val < 0 && val % wd.bw != 0) ++neg_nonmultiple;
             vals[((size_t)y * w + x) * N + c] = val;
             v(x, y)[c] = (ch_t)val;
         }
@@ -114,7 +123,7 @@ struct variant {
 };
 
 // model of one fill: adds to m the counted pixels of c; returns the number counted
-template <class P> static long model_fill(content<P> const& c, const int* dims, int D, long bw, bool floor_div,
+template <class P> static long model_fill(content<P> const& c, const int* dims, int D, long bw,
                                           bool use_mask, std::vector<std::vector<bool>> const& mask,
                                           bool use_lim, karr const& lo, karr const& hi, model_t& m) {
     long counted = 0;
@@ -124,7 +133,7 @@ template <class P> static long model_fill(content<P> const& c, const int* dims, 
         bool in = true;
         for (int j = 0; j < D; ++j) {
             long v = c.at(x, y, dims[j]);
-            k[j] = floor_div ? div_floor(v, bw) : div_trunc(v, bw);
+            k[j] = div_trunc(v, bw);   // the bin key is the C++ signed division ch / bin_width, nothing else
             if (use_lim && (k[j] < lo[j] || k[j] > hi[j])) in = false;
         }
         if (!in) continue;
@@ -290,7 +299,7 @@ static void fill_experiment(content<P>& prior, content<P>& c, long bw, int cls, 
     typedef typename Hist::key_type key_t;
     const std::string tname = PT<P>::name();
     // key class: everything a defect could depend on, from a finite set
-    const std::string kcls = vh::cat(tname, ".", histname, ".", cls ? "neg" : "nonneg", "-", bw == 1 ? "bw1" : "bwN", ".", vr.cls());
+    const std::string kcls = vh::cat(tname, ".", histname, ".", cls ? "neg" : "nonneg", "-", bw == 1 ? "bw1" : (bw & (bw - 1)) ? "bwN" : "bwPow2", ".", vr.cls());
     auto what = [&] { return vh::cat(tname, " ", c.w, "x", c.h, " hist=", histname, " bin_width=", bw, " variant=", vr.str()); };
 
     // mask
@@ -322,17 +331,16 @@ static void fill_experiment(content<P>& prior, content<P>& c, long bw, int cls, 
     vh::obs(vh::cat("fill.", vr.dense ? (D == 1 ? "dense" : "dense-noop") : "sparse", vr.accumulate ? ".accumulate" : ".replace", vr.mask ? ".mask" : "", vr.limits ? ".limits" : ""));
     vh::evals(1);
 
-    // model (two readings of "divided by" for negative values: truncation and floor; equal for non-negative ones)
-    bool ok = false; std::string why0, why1; model_t M0;
-    for (int fl = 0; fl < (cls ? 2 : 1) && !ok; ++fl) {
-        model_t M;
+    // model: the bin key is ch / bin_width in C++ signed arithmetic (truncation toward zero), for every width incl.
+    // powers of two; limits compare these keys
+    std::string why0; model_t M0;
+    {
         std::vector<std::vector<bool>> nomask;
-        if (vr.accumulate) model_fill(prior, dims, D, bw, fl, false, nomask, false, lo, hi, M);
-        model_fill(c, dims, D, bw, fl, vr.mask, mask, vr.limits, lo, hi, M);
-        ok = hist_equals(H, M, fl ? &why1 : &why0);
-        if (ok || fl == 0) M0 = M;
+        if (vr.accumulate) model_fill(prior, dims, D, bw, false, nomask, false, lo, hi, M0);
+        model_fill(c, dims, D, bw, vr.mask, mask, vr.limits, lo, hi, M0);
     }
-    if (!ok) { V("fill.bins." + kcls, [&] { return vh::cat(what(), ": ", why0, cls ? " (floor reading: " + why1 + ")" : std::string()); }); return; }
+    if (cls && bw > 1 && c.neg_nonmultiple) vh::obs(vh::cat("content.neg-nonmultiple.", (bw & (bw - 1)) ? "bw-other" : "bw-pow2"));
+    if (!hist_equals(H, M0, &why0)) { V("fill.bins." + kcls, [&] { return vh::cat(what(), ": ", why0); }); return; }
     if (c.w && c.h) vh::distinct_hash(vh::mix(vh::mix(c.hash(), prior.hash()), vh::hash_str(kcls + vr.str()) + (uint64_t)bw));
     if (!post) return;
     const std::string pcls = vh::cat(tname, ".", histname);
